@@ -522,6 +522,13 @@ def c19(stream, scen):
     return wit
 
 
+def c20_summary(stream, scen=None):
+    """The run summary printed by `simulate` counts the parts received by EVERY registered sink during the run,
+    also by sinks constructed while the run was in progress (a late-created sink behaves like one created before
+    the start).  The runner compares the printed number with the registered sinks' counters."""
+    return [l for l in stream if l.startswith('summary-mismatch')][:3]
+
+
 def c20_init(stream, scen=None):
     """family sysi (one system; every `counts` comes after its first simulate): every registered asset
     has been initialised exactly once -- also the assets constructed while the others were being
@@ -549,7 +556,7 @@ def c20_init(stream, scen=None):
     return wit
 
 
-MONITORS.update({'C09': [c09], 'C10': [c10], 'C12': [c12], 'C18': [c18], 'C19': [c19], 'C20': [c20_init]})
+MONITORS.update({'C09': [c09], 'C10': [c10], 'C12': [c12], 'C18': [c18], 'C19': [c19], 'C20': [c20_init, c20_summary]})
 
 
 # ------------------------------------------------------------------------------- floor monitors
